@@ -63,7 +63,7 @@ class Ctx:
         self.notes.append(s)
 
     def subsume(self, prefix, reason):
-        self.subsumed.append((prefix, reason))
+        self.subsumed.append((re.sub(r"[^A-Za-z0-9_.:<>,+\-]", "_", prefix), reason))
 
     def check(self, cond, rule, instance, okdetail, failmsg, where=None, witness=None, key=None):
         if cond:
